@@ -451,14 +451,105 @@ pub fn exhaustive_depth(thorough: bool) -> usize {
     }
 }
 
-/// number of (start world, first operation) pairs = cases of the exhaustive part
+/// number of (start world, first operation) pairs = cases of the exhaustive part (+1 for the
+/// long-cycle case)
 pub fn exhaustive_cases() -> u64 {
     let b = Bridge::new(&small_instance()).expect("small instance");
     let (ids, tours) = small_world(&b);
-    start_worlds(&b, &ids, &tours).iter().map(|(_, w)| applicable(&b, w, &ids).len() as u64).sum()
+    start_worlds(&b, &ids, &tours).iter().map(|(_, w)| applicable(&b, w, &ids).len() as u64).sum::<u64>() + 1
+}
+
+/// seven vehicles in ONE rotation cycle: every 3-opt move (all i<j<k), every pair of them, every
+/// move of a vehicle to the end of its own cycle and every removal, judged after each step
+fn long_cycle_case(out: &mut CaseOut) {
+    let b = Bridge::new(&small_instance()).expect("small instance");
+    let t = |id: &str| N::T(b.inst.trip_by_id[id]);
+    let m = N::S(0);
+    let ov = b.inst.overflow();
+    let paths: Vec<Vec<N>> = vec![
+        vec![N::SD(0), t("a"), N::ED(0)],
+        vec![N::SD(1), m, t("a"), t("b"), N::ED(0)],
+        vec![N::SD(ov), t("c"), N::ED(1)],
+        vec![N::SD(0), m, t("d"), N::ED(1)],
+        vec![N::SD(1), t("c"), N::ED(0)],
+        vec![N::SD(0), m, t("a"), N::ED(1)],
+        vec![N::SD(ov), t("d"), N::ED(ov)],
+    ];
+    let mut s = Schedule::empty(b.net.clone());
+    let mut ids = Vec::new();
+    for p in &paths {
+        let (s2, id) = s.spawn_vehicle_for_path(vt(0), b.nodes(p)).expect("spawn long-cycle world");
+        s = s2;
+        ids.push(id);
+    }
+    let tours: ImMap<VehicleIdx, Tour> = ids.iter().map(|v| (*v, s.tour_of(*v).unwrap().clone())).collect();
+    // one cycle holding all seven
+    let mut w = World { tours: tours.clone(), members: [ids[0]].into_iter().collect(), tr: Transition::new_fast(&ids[..1], &tours, &b.net) };
+    for v in &ids[1..] {
+        w = apply(&b, &w, &TOp::AddEnd { v: *v, cycle: 0 });
+    }
+    let mut sequences = 0u64;
+    let mut judge = |w: &World, path: &[String], out: &mut CaseOut| {
+        let (f, _) = check(&b, w);
+        for (sig, detail) in f {
+            out.viol("C15", &format!("{}.long_cycle", sig), format!("after {:?}: {}", path, detail));
+        }
+    };
+    judge(&w, &["seven vehicles in one cycle".to_string()], out);
+    let n = ids.len();
+    let mut triples = Vec::new();
+    for i in 0..n - 2 {
+        for j in i + 1..n - 1 {
+            for k in j + 1..n {
+                triples.push(TOp::ThreeOpt { cycle: 0, i, j, k });
+            }
+        }
+    }
+    let mut firsts: Vec<TOp> = triples.clone();
+    for v in &ids {
+        firsts.push(TOp::Move { v: *v, cycle: 0 });
+        firsts.push(TOp::Remove { v: *v });
+        firsts.push(TOp::UpdateEnd { v: *v, depot: 1 });
+    }
+    for o1 in &firsts {
+        let w1 = match guard(|| apply(&b, &w, o1)) {
+            Ok(x) => x,
+            Err(p) => {
+                out.viol("C15", &format!("{}.{}.long_cycle", o1.kind(), p.sig()), format!("{} panicked: {}", o1.name(), p.message));
+                continue;
+            }
+        };
+        sequences += 1;
+        judge(&w1, &[o1.name()], out);
+        if out.viols.len() > 20 {
+            break;
+        }
+        // second step: every 3-opt move that is applicable now
+        let len = w1.tr.get_cycle(0).len();
+        for o2 in &triples {
+            if let TOp::ThreeOpt { k, .. } = o2 {
+                if *k >= len {
+                    continue;
+                }
+            }
+            match guard(|| apply(&b, &w1, o2)) {
+                Ok(w2) => {
+                    sequences += 1;
+                    judge(&w2, &[o1.name(), o2.name()], out);
+                }
+                Err(p) => out.viol("C15", &format!("{}.{}.long_cycle", o2.kind(), p.sig()), format!("{} after {} panicked: {}", o2.name(), o1.name(), p.message)),
+            }
+        }
+    }
+    out.count("long_cycle_sequences", sequences);
+    out.nontrivial_extra += sequences;
 }
 
 fn exhaustive_case(ctx: &Ctx, idx: u64, out: &mut CaseOut) {
+    if idx + 1 == exhaustive_cases() {
+        long_cycle_case(out);
+        return;
+    }
     let b = Bridge::new(&small_instance()).expect("small instance");
     let (ids, tours) = small_world(&b);
     let mut k = idx;
